@@ -794,3 +794,179 @@ def _():
     fails = [dict(file=f, function=fu, line=ln, store=tx, attribute_may_hold="a process-wide table or cached map") for f, fu, ln, tx in hits
              if (f, fu, tx) not in SHARED_ATTR_WRITERS_ALLOWED]
     return dict(cases=len(attrs) + sum(1 for _ in _package_files()), failures=fails[:5], notes=["attributes tracked: %s" % ", ".join(attrs)])
+
+
+# -- extract_pages (C12: fresh managers per call; C11/C04: option plumbing): one new resource manager (with the caller's caching flag), one new aggregator and one
+#    new interpreter per call; every selected page is processed once, in order, and its layout is handed out right after; the options reach get_pages unchanged ----
+hlv = real_module("pdfminer.high_level")
+_HL = {}
+for _k, _ps in (("pdfminer.utils:open_filename.__init__", ["self", "filename", "mode"]), ("pdfminer.pdfinterp:PDFResourceManager.__init__", ["self", "caching"]),
+                ("pdfminer.converter:PDFPageAggregator.__init__", ["self", "rsrcmgr", "pageno", "laparams"]), ("pdfminer.pdfinterp:PDFPageInterpreter.__init__", ["self", "rsrcmgr", "device"]),
+                ("pdfminer.pdfinterp:PDFPageInterpreter.process_page", ["self", "page"]), ("pdfminer.converter:PDFPageAggregator.get_result", ["self"]),
+                ("pdfminer.pdfpage:PDFPage.get_pages", ["cls", "fp", "pagenos", "maxpages", "password", "caching", "check_extractable"]),
+                ("pdfminer.layout:LAParams.__init__", ["self"])):
+    _HL[_k] = stub(_k, _ps)
+_HL["pdfminer.utils:open_filename.__init__"].effect = lambda I, bound: bound["self"].f.update(file_handler="the-open-file", closing=False)
+_HL["pdfminer.pdfpage:PDFPage.get_pages"].result_fn = ("pages", lambda fp: ["page-1", "page-2", "page-3"])
+_HL["pdfminer.converter:PDFPageAggregator.get_result"].result_fn = ("layout", lambda self: ("layout-of", self.f.setdefault("_n", [0]).__setitem__(0, self.f["_n"][0] + 1) or self.f["_n"][0]))
+_HL["pdfminer.pdfpage:PDFPage.get_pages"].defaults = {"pagenos": None, "maxpages": 0, "password": "", "caching": True, "check_extractable": False}
+_HL["pdfminer.converter:PDFPageAggregator.__init__"].defaults = {"pageno": 1, "laparams": None}
+_HL["pdfminer.pdfinterp:PDFResourceManager.__init__"].defaults = {"caching": True}
+for _lapk in ("laparams-given", "laparams-default"):
+    c = contract("pdfminer.high_level:extract_pages#%s" % _lapk, props=["C12", "C11", "C04"])
+    c.param("pdf_file", T.Const("the-input")).param("password", T.OneOf("", "secret")).param("page_numbers", T.OneOf(None, (0, 2))).param("maxpages", T.OneOf(0, 2))
+    c.param("caching", T.Bool()).param("laparams", T.Const("the-laparams") if _lapk == "laparams-given" else T.Const(None))
+    c.skip_cross = True
+    c.stubs = _HL
+    c.returns(T.Opaque("layouts"))
+
+    def _ep_spec(pdf_file, password, page_numbers, maxpages, caching, laparams, result, trace, _lapk):  # noqa: E306
+        t = [(n.split(":")[-1], b) for n, b in trace]
+        names = [n for n, _ in t]
+        lap_calls = [b for n, b in t if n == "LAParams.__init__"]
+        if (_lapk == "laparams-default") != (len(lap_calls) == 1):
+            return False
+        names = [n for n in names if n != "LAParams.__init__"]
+        if names[:4] != ["open_filename.__init__", "PDFResourceManager.__init__", "PDFPageAggregator.__init__", "PDFPageInterpreter.__init__"]:
+            return False
+        by = {n: b for n, b in t}
+        rm, dev, itp = by["PDFResourceManager.__init__"]["self"], by["PDFPageAggregator.__init__"]["self"], by["PDFPageInterpreter.__init__"]["self"]
+        if by["open_filename.__init__"]["filename"] != pdf_file or by["PDFPageAggregator.__init__"]["rsrcmgr"] is not rm:
+            return False
+        if by["PDFPageInterpreter.__init__"]["rsrcmgr"] is not rm or by["PDFPageInterpreter.__init__"]["device"] is not dev:
+            return False
+        if _lapk == "laparams-given" and by["PDFPageAggregator.__init__"]["laparams"] != "the-laparams":
+            return False
+        if _lapk == "laparams-default" and by["PDFPageAggregator.__init__"]["laparams"] is not lap_calls[0]["self"]:
+            return False
+        gp = by["PDFPage.get_pages"]
+        if gp["fp"] != "the-open-file" or gp["pagenos"] != page_numbers or gp["maxpages"] != maxpages or gp["password"] != password:
+            return False
+        rest = names[5:]
+        if rest != ["PDFPageInterpreter.process_page", "PDFPageAggregator.get_result"] * 3:
+            return False
+        pages = [b["page"] for n, b in t if n == "PDFPageInterpreter.process_page"]
+        if pages != ["page-1", "page-2", "page-3"] or list(result) != [("layout-of", 1), ("layout-of", 2), ("layout-of", 3)]:
+            return False
+        return And(Iff(by["PDFResourceManager.__init__"]["caching"], caching), Iff(gp["caching"], caching))
+    c.ens("fresh-manager-aggregator-interpreter-options-forwarded-each-page-processed-once-in-order",
+          (lambda k, f: lambda pdf_file, password, page_numbers, maxpages, caching, laparams, result, trace: f(pdf_file, password, page_numbers, maxpages, caching, laparams, result, trace, k))(_lapk, _ep_spec))
+
+
+# -- extract_text: as extract_pages, with a text converter writing into a private string sink whose contents are returned ---------------------------------------
+_HL2 = dict(_HL)
+_HL2["pdfminer.converter:TextConverter.__init__"] = stub("pdfminer.converter:TextConverter.__init__", ["self", "rsrcmgr", "outfp", "codec", "pageno", "laparams", "showpageno", "imagewriter"])
+_HL2["pdfminer.converter:TextConverter.__init__"].defaults = {"codec": "utf-8", "pageno": 1, "laparams": None, "showpageno": False, "imagewriter": None}
+for _lapk in ("laparams-given", "laparams-default"):
+    c = contract("pdfminer.high_level:extract_text#%s" % _lapk, props=["C12", "C11"])
+    c.param("pdf_file", T.Const("the-input")).param("password", T.OneOf("", "secret")).param("page_numbers", T.OneOf(None, (0, 2))).param("maxpages", T.OneOf(0, 2))
+    c.param("caching", T.Bool()).param("codec", T.OneOf("utf-8", "latin-1")).param("laparams", T.Const("the-laparams") if _lapk == "laparams-given" else T.Const(None))
+    c.skip_cross = True
+    c.stubs = _HL2
+    c.returns(T.Opaque("text"))
+
+    def _et_spec(pdf_file, password, page_numbers, maxpages, caching, codec, laparams, result, trace, _lapk):  # noqa: E306
+        t = [(n.split(":")[-1], b) for n, b in trace]
+        lap_calls = [b for n, b in t if n == "LAParams.__init__"]
+        if (_lapk == "laparams-default") != (len(lap_calls) == 1):
+            return False
+        names = [n for n, _ in t if n != "LAParams.__init__"]
+        if names != ["open_filename.__init__", "PDFResourceManager.__init__", "TextConverter.__init__", "PDFPageInterpreter.__init__", "PDFPage.get_pages"] + ["PDFPageInterpreter.process_page"] * 3:
+            return False
+        by = {n: b for n, b in t}
+        rm, dev = by["PDFResourceManager.__init__"]["self"], by["TextConverter.__init__"]["self"]
+        tc, gp = by["TextConverter.__init__"], by["PDFPage.get_pages"]
+        sink = tc["outfp"]
+        if tc["rsrcmgr"] is not rm or tc["codec"] != codec or tc["imagewriter"] is not None or by["PDFPageInterpreter.__init__"]["rsrcmgr"] is not rm or by["PDFPageInterpreter.__init__"]["device"] is not dev:
+            return False
+        if (tc["laparams"] != "the-laparams") if _lapk == "laparams-given" else (tc["laparams"] is not lap_calls[0]["self"]):
+            return False
+        if not (isinstance(result, tuple) and result[0] == "text-written-to" and result[1] is sink):
+            return False
+        if gp["fp"] != "the-open-file" or gp["pagenos"] != page_numbers or gp["maxpages"] != maxpages or gp["password"] != password:
+            return False
+        if [b["page"] for n, b in t if n == "PDFPageInterpreter.process_page"] != ["page-1", "page-2", "page-3"]:
+            return False
+        return And(Iff(by["PDFResourceManager.__init__"]["caching"], caching), Iff(gp["caching"], caching))
+    c.ens("fresh-manager-converter-on-a-private-sink-options-forwarded-pages-in-order-sink-contents-returned",
+          (lambda k, f: lambda pdf_file, password, page_numbers, maxpages, caching, codec, laparams, result, trace: f(pdf_file, password, page_numbers, maxpages, caching, codec, laparams, result, trace, k))(_lapk, _et_spec))
+
+
+# -- extract_text_to_fp (text and xml): converter class by output_type, the caller's sink, codec, laparams, strip_control; an image writer only when an output
+#    directory is given; caching = not disable_caching for manager and pages; each page's rotation is increased by `rotation` (mod 360) before it is processed;
+#    the converter is closed at the end; an unknown output type is an error -----------------------------------------------------------------------------------
+_HL3 = dict(_HL2)
+_HL3["pdfminer.converter:XMLConverter.__init__"] = stub("pdfminer.converter:XMLConverter.__init__", ["self", "rsrcmgr", "outfp", "codec", "pageno", "laparams", "imagewriter", "stripcontrol"])
+_HL3["pdfminer.converter:XMLConverter.__init__"].defaults = {"codec": "utf-8", "pageno": 1, "laparams": None, "imagewriter": None, "stripcontrol": False}
+_HL3["pdfminer.image:ImageWriter.__init__"] = stub("pdfminer.image:ImageWriter.__init__", ["self", "outdir"])
+for _cls in ("TextConverter", "XMLConverter", "PDFConverter"):
+    _HL3["pdfminer.converter:%s.close" % _cls] = stub("pdfminer.converter:%s.close" % _cls, ["self"])
+_HL3["pdfminer.pdfdevice:PDFDevice.close"] = stub("pdfminer.pdfdevice:PDFDevice.close", ["self"])
+
+
+def _pages_with_rotation(I, bound):
+    pass
+
+
+class _RotPages(T.Sort):
+    def fresh(self, ctx, name):
+        rots = [T.Int(0, 359).fresh(ctx, "rotate%d" % k) for k in range(2)]
+        return [SObj(None, {"rotate": r, "_tag": "page-%d" % (k + 1), "_rot0": r}, "page%d" % k) for k, r in enumerate(rots)]
+    def sample(self, rng):
+        return None
+    def from_model(self, ev, v):
+        return [p.f["_tag"] for p in v]
+
+
+_gp3 = stub("pdfminer.pdfpage:PDFPage.get_pages", ["cls", "fp", "pagenos", "maxpages", "password", "caching", "check_extractable"])
+_gp3.defaults = {"pagenos": None, "maxpages": 0, "password": "", "caching": True, "check_extractable": False}
+_gp3.result_fn = ("pages", lambda fp: PAGES3[0])
+PAGES3 = [None]
+_HL3["pdfminer.pdfpage:PDFPage.get_pages"] = _gp3
+_pp3 = stub("pdfminer.pdfinterp:PDFPageInterpreter.process_page", ["self", "page"])
+_pp3.effect = lambda I, bound: bound["page"].f.__setitem__("_rot_when_processed", bound["page"].f["rotate"])
+_HL3["pdfminer.pdfinterp:PDFPageInterpreter.process_page"] = _pp3
+c = contract("pdfminer.high_level:extract_text_to_fp", props=["C11", "C12", "C04", "C18"])
+c.param("inf", T.Const("the-open-file")).param("outfp", T.Const("the-sink")).param("output_type", T.OneOf("text", "xml", "pdf"))
+c.param("codec", T.Const("latin-1")).param("laparams", T.OneOf(None, "the-laparams")).param("maxpages", T.Const(2)).param("page_numbers", T.Const((0, 2)))
+c.param("password", T.Const("secret")).param("scale", T.Const(1.0)).param("rotation", T.Int(0, 720)).param("layoutmode", T.Const("normal"))
+c.param("output_dir", T.OneOf(None, "", "outdir")).param("strip_control", T.Bool()).param("debug", T.Const(False)).param("disable_caching", T.Bool())
+c.ghost("pages", _RotPages())
+c.skip_cross = True
+c.wire = lambda bound, ghosts: PAGES3.__setitem__(0, ghosts["pages"])
+c.stubs = _HL3
+c.mod("pages[*]")
+c.may_raise(real_module("pdfminer.pdfexceptions").PDFValueError, lambda output_type: output_type == "pdf")
+
+
+def _etf_spec(outfp, output_type, codec, laparams, maxpages, page_numbers, password, rotation, output_dir, strip_control, disable_caching, pages, trace):
+    t = [(n.split(":")[-1], b) for n, b in trace]
+    names = [n for n, _ in t]
+    conv = {"text": "TextConverter", "xml": "XMLConverter"}[output_type]
+    want = (["ImageWriter.__init__"] if output_dir else []) + ["PDFResourceManager.__init__", conv + ".__init__", "PDFPageInterpreter.__init__", "PDFPage.get_pages"] \
+        + ["PDFPageInterpreter.process_page"] * 2
+    if names[:len(want)] != want or len(names) != len(want) + 1 or not names[-1].endswith(".close"):
+        return False
+    by = {n: b for n, b in t}
+    rm, dev = by["PDFResourceManager.__init__"]["self"], by[conv + ".__init__"]["self"]
+    cv, gp = by[conv + ".__init__"], by["PDFPage.get_pages"]
+    if cv["rsrcmgr"] is not rm or cv["outfp"] != outfp or cv["codec"] != codec or cv["laparams"] != laparams or t[-1][1]["self"] is not dev:
+        return False
+    if (cv["imagewriter"] is not by["ImageWriter.__init__"]["self"] or by["ImageWriter.__init__"]["outdir"] != output_dir) if output_dir else (cv["imagewriter"] is not None):
+        return False
+    if by["PDFPageInterpreter.__init__"]["rsrcmgr"] is not rm or by["PDFPageInterpreter.__init__"]["device"] is not dev:
+        return False
+    if gp["fp"] != "the-open-file" or gp["pagenos"] != page_numbers or gp["maxpages"] != maxpages or gp["password"] != password:
+        return False
+    if [b["page"]._tag for n, b in t if n == "PDFPageInterpreter.process_page"] != ["page-1", "page-2"]:
+        return False
+    conds = [Iff(by["PDFResourceManager.__init__"]["caching"], Not(disable_caching)), Iff(gp["caching"], Not(disable_caching))]
+    if output_type == "xml":
+        conds.append(Iff(cv["stripcontrol"], strip_control))
+    from pyvc.logic import mod as _mod
+    for pg in pages:
+        conds.append(eq(pg._rot_when_processed, _mod(pg._rot0 + rotation, 360)))
+    return And(*conds)
+
+
+c.ens("converter-by-output-type-options-forwarded-rotation-added-pages-in-order-converter-closed", _etf_spec)
